@@ -18,6 +18,7 @@ import (
 	"github.com/comdex-official/comdex/x/auctionsV2"
 	auctionsV2types "github.com/comdex-official/comdex/x/auctionsV2/types"
 	collectortypes "github.com/comdex-official/comdex/x/collector/types"
+	lendtypes "github.com/comdex-official/comdex/x/lend/types"
 	liqV2types "github.com/comdex-official/comdex/x/liquidationsV2/types"
 	markettypes "github.com/comdex-official/comdex/x/market/types"
 	vaulttypes "github.com/comdex-official/comdex/x/vault/types"
@@ -85,6 +86,10 @@ type c10fix struct {
 	appID uint64
 	pairs []c10pair
 	t0    time.Time
+	// lend fixture only
+	lend      bool
+	lendOwner sdk.AccAddress
+	poolMod   string
 }
 
 func c10setTwa(app *chain.App, ctx sdk.Context, id, price uint64, active bool) {
@@ -164,7 +169,7 @@ func c10newFix(t *testing.T) *c10fix {
 }
 
 // the named accounts whose balances are printed after every op (order is the protocol)
-var c10names = []string{"b1", "b2", "b3", "b4", "auction", "collector", "owner", "keeper", "initiator", "reserve", "vault"}
+var c10names = []string{"b1", "b2", "b3", "b4", "auction", "collector", "owner", "keeper", "initiator", "reserve", "vault", "pool"}
 
 type c10seq struct {
 	f     *c10fix
@@ -188,6 +193,14 @@ func (s *c10seq) acct(name string) sdk.AccAddress {
 		return s.f.app.AccountKeeper.GetModuleAddress(liqV2types.ModuleName)
 	case "vault":
 		return s.f.app.AccountKeeper.GetModuleAddress(vaulttypes.ModuleName)
+	case "pool":
+		if s.f.lend {
+			return s.f.app.AccountKeeper.GetModuleAddress(s.f.poolMod)
+		}
+	case "owner":
+		if s.f.lend {
+			return s.f.lendOwner
+		}
 	}
 	return c10addr(name)
 }
@@ -198,6 +211,13 @@ func (s *c10seq) balances() string {
 		a := s.acct(n)
 		c := s.f.app.BankKeeper.GetBalance(s.ctx, a, s.p.coll.denom).Amount
 		d := s.f.app.BankKeeper.GetBalance(s.ctx, a, s.p.debt.denom).Amount
+		if n == "pool" && s.f.lend {
+			// the lending side as a whole: pool account + the lend module's reserve account (the split of the returned
+			// target between pool and reserve is lend-internal bookkeeping, liquidate.go:739-790)
+			r := s.f.app.AccountKeeper.GetModuleAddress(lendtypes.ModuleName)
+			c = c.Add(s.f.app.BankKeeper.GetBalance(s.ctx, r, s.p.coll.denom).Amount)
+			d = d.Add(s.f.app.BankKeeper.GetBalance(s.ctx, r, s.p.debt.denom).Amount)
+		}
 		sb = append(sb, n+":"+c.String()+":"+d.String())
 	}
 	return strings.Join(sb, ",")
@@ -257,6 +277,90 @@ func (s *c10seq) limitBids() string {
 	return strings.Join(out, ",")
 }
 
+// c10newLendFix builds the lending fixture of x/auctionsV2/keeper/msg_server_test.go (AddAppAssets): two pools, eight assets,
+// app 3 ("commodo"), lends, module funding and two borrows of uasset2 against ucasset1 (collateral uasset1).
+func c10newLendFix(t *testing.T) *c10fix {
+	app := chain.Setup(t, false)
+	t0 := time.Date(2023, 6, 1, 12, 0, 0, 0, time.UTC)
+	ctx := app.BaseApp.NewContext(false, tmproto.Header{Height: 10, Time: t0})
+	f := &c10fix{app: app, base: ctx, t0: t0, lend: true, appID: 3, poolMod: "cmdx"}
+	mk := func(name, denom string, twa uint64) uint64 {
+		if err := app.AssetKeeper.AddAssetRecords(ctx, assettypes.Asset{Name: name, Denom: denom, Decimals: sdk.NewInt(1000000), IsOnChain: true, IsOraclePriceRequired: true, IsCdpMintable: true}); err != nil {
+			t.Fatal(err)
+		}
+		var id uint64
+		for _, a := range app.AssetKeeper.GetAssets(ctx) {
+			if a.Denom == denom {
+				id = a.Id
+			}
+		}
+		app.MarketKeeper.SetTwa(ctx, markettypes.TimeWeightedAverage{AssetID: id, ScriptID: 10, Twa: twa, CurrentIndex: 1, IsPriceActive: true})
+		return id
+	}
+	a1 := mk("ASSETONE", "uasset1", 2000000)
+	a2 := mk("ASSETTWO", "uasset2", 2000000)
+	a3 := mk("ASSETTHREE", "uasset3", 1000000)
+	a4 := mk("ASSETFOUR", "uasset4", 2000000)
+	c1 := mk("CASSETONE", "ucasset1", 1000000)
+	c2 := mk("CASSETTWO", "ucasset2", 2000000)
+	c3 := mk("CASSETTHRE", "ucasset3", 2000000)
+	c4 := mk("CASSETFOUR", "ucasset4", 2000000)
+	d1 := &lendtypes.AssetDataPoolMapping{AssetID: a1, AssetTransitType: 3, SupplyCap: sdk.NewDec(5000000000000000000)}
+	d2 := &lendtypes.AssetDataPoolMapping{AssetID: a2, AssetTransitType: 1, SupplyCap: sdk.NewDec(1000000000000000000)}
+	d3 := &lendtypes.AssetDataPoolMapping{AssetID: a3, AssetTransitType: 2, SupplyCap: sdk.NewDec(5000000000000000000)}
+	d4 := &lendtypes.AssetDataPoolMapping{AssetID: a4, AssetTransitType: 1, SupplyCap: sdk.NewDec(3000000000000000000)}
+	rates := func(id uint64, uo, ba, s1, s2 string, stable bool, sb, ss1, ss2, ltv, lt, lp, lb, rf string, cid uint64) lendtypes.AssetRatesParams {
+		return lendtypes.AssetRatesParams{AssetID: id, UOptimal: c10dec(uo), Base: c10dec(ba), Slope1: c10dec(s1), Slope2: c10dec(s2), EnableStableBorrow: stable,
+			StableBase: c10dec(sb), StableSlope1: c10dec(ss1), StableSlope2: c10dec(ss2), Ltv: c10dec(ltv), LiquidationThreshold: c10dec(lt), LiquidationPenalty: c10dec(lp),
+			LiquidationBonus: c10dec(lb), ReserveFactor: c10dec(rf), CAssetID: cid}
+	}
+	must := func(err error) {
+		if err != nil {
+			t.Fatal(err)
+		}
+	}
+	must(app.LendKeeper.AddAssetRatesParams(ctx, rates(a3, "0.8", "0.002", "0.06", "0.6", true, "0.04", "0.04", "0.06", "0.8", "0.85", "0.025", "0.025", "0.1", c3)))
+	must(app.LendKeeper.AddAssetRatesParams(ctx, rates(a1, "0.75", "0.002", "0.07", "1.25", false, "0.0", "0.0", "0.0", "0.7", "0.75", "0.05", "0.05", "0.2", c1)))
+	pp := func(r lendtypes.AssetRatesParams, mod, cpool string, data []*lendtypes.AssetDataPoolMapping) lendtypes.AssetRatesPoolPairs {
+		return lendtypes.AssetRatesPoolPairs{AssetID: r.AssetID, UOptimal: r.UOptimal, Base: r.Base, Slope1: r.Slope1, Slope2: r.Slope2, EnableStableBorrow: r.EnableStableBorrow,
+			StableBase: r.StableBase, StableSlope1: r.StableSlope1, StableSlope2: r.StableSlope2, Ltv: r.Ltv, LiquidationThreshold: r.LiquidationThreshold,
+			LiquidationPenalty: r.LiquidationPenalty, LiquidationBonus: r.LiquidationBonus, ReserveFactor: r.ReserveFactor, CAssetID: r.CAssetID, ModuleName: mod, CPoolName: cpool,
+			AssetData: data, MinUsdValueLeft: 1000000}
+	}
+	must(app.LendKeeper.AddAssetRatesPoolPairs(ctx, pp(rates(a2, "0.5", "0.002", "0.08", "2.0", false, "0.0", "0.0", "0.0", "0.5", "0.55", "0.05", "0.05", "0.2", c2), "cmdx", "CMDX-ATOM-CMST", []*lendtypes.AssetDataPoolMapping{d1, d2, d3})))
+	must(app.LendKeeper.AddAssetRatesPoolPairs(ctx, pp(rates(a4, "0.65", "0.002", "0.08", "1.5", false, "0.0", "0.0", "0.0", "0.6", "0.65", "0.05", "0.05", "0.2", c4), "osmo", "OSMO-ATOM-CMST", []*lendtypes.AssetDataPoolMapping{d4, d1, d3})))
+	for _, n := range [][2]string{{"cswap", "cswap"}, {"harbor", "hbr"}, {"commodo", "cmdo"}} {
+		must(app.AssetKeeper.AddAppRecords(ctx, assettypes.AppData{Name: n[0], ShortName: n[1], MinGovDeposit: sdk.NewInt(0), GovTimeInSeconds: 0, GenesisToken: []assettypes.MintGenesisToken{}}))
+	}
+	u1 := c10addr("lender1")
+	u2 := c10addr("lender2")
+	f.lendOwner = u1
+	bigc := sdk.NewInt(1000000000000000)
+	for _, d := range []string{"uasset1", "uasset2", "uasset3", "uasset4"} {
+		c10fund(t, app, ctx, u1, d, bigc)
+	}
+	c10fund(t, app, ctx, u2, "uasset1", bigc)
+	c10fund(t, app, ctx, u2, "uasset2", bigc)
+	c10fund(t, app, ctx, u2, "uasset3", sdk.NewInt(13000000))
+	deliver := func(m sdk.Msg) {
+		if ok, cl := c10deliver(app, ctx, m); !ok {
+			t.Fatalf("lend fixture message %T failed: %s %s", m, cl, c10lastPanic)
+		}
+	}
+	deliver(lendtypes.NewMsgLend(u1.String(), a1, sdk.NewCoin("uasset1", sdk.NewInt(3000000000)), 1, 3))
+	deliver(lendtypes.NewMsgLend(u1.String(), a2, sdk.NewCoin("uasset2", sdk.NewInt(10000000000)), 1, 3))
+	deliver(lendtypes.NewMsgLend(u2.String(), a1, sdk.NewCoin("uasset1", sdk.NewInt(10000000000)), 1, 3))
+	deliver(lendtypes.NewMsgFundModuleAccounts(1, a1, u1.String(), sdk.NewCoin("uasset1", sdk.NewInt(10000000000))))
+	deliver(lendtypes.NewMsgFundModuleAccounts(1, a2, u1.String(), sdk.NewCoin("uasset2", sdk.NewInt(10000000000))))
+	deliver(lendtypes.NewMsgFundModuleAccounts(1, a3, u1.String(), sdk.NewCoin("uasset3", sdk.NewInt(120000000))))
+	deliver(lendtypes.NewMsgFundModuleAccounts(2, a1, u1.String(), sdk.NewCoin("uasset1", sdk.NewInt(10000000000))))
+	deliver(lendtypes.NewMsgFundModuleAccounts(2, a4, u1.String(), sdk.NewCoin("uasset4", sdk.NewInt(10000000000))))
+	deliver(lendtypes.NewMsgBorrow(u1.String(), 1, 1, false, sdk.NewCoin("ucasset1", sdk.NewInt(100000000)), sdk.NewCoin("uasset2", sdk.NewInt(70000000))))
+	deliver(lendtypes.NewMsgBorrow(u2.String(), 3, 1, false, sdk.NewCoin("ucasset1", sdk.NewInt(1000000000)), sdk.NewCoin("uasset2", sdk.NewInt(700000000))))
+	f.pairs = []c10pair{{coll: c10asset{a1, "uasset1", 1000000}, debt: c10asset{a2, "uasset2", 1000000}, extID: 0, cmst: false}}
+	return f
+}
+
 type c10cfg struct {
 	pair       int
 	kind       string // vault | vaultkeeper | external
@@ -291,8 +395,10 @@ func c10start(t *testing.T, f *c10fix, tr *Trace, cfg c10cfg) *c10seq {
 	}
 	// b3 is a poor bidder: some of its bids fail for lack of funds
 	c10fund(t, app, ctx, c10addr("b3"), s.p.debt.denom, cfg.amountOut.QuoRaw(2).AddRaw(5))
-	c10fund(t, app, ctx, c10addr("owner"), s.p.coll.denom, cfg.amountIn)
-	c10fund(t, app, ctx, c10addr("initiator"), s.p.coll.denom, cfg.amountIn)
+	if !f.lend {
+		c10fund(t, app, ctx, c10addr("owner"), s.p.coll.denom, cfg.amountIn)
+		c10fund(t, app, ctx, c10addr("initiator"), s.p.coll.denom, cfg.amountIn)
+	}
 	c10fund(t, app, ctx, c10addr("keeper"), s.p.debt.denom, sdk.NewInt(1))
 	if cfg.reserve > 0 {
 		ok, cl := c10deliver(app, ctx, liqV2types.NewMsgAppReserveFundsRequest(c10addr("b4").String(), f.appID, s.p.debt.id, sdk.NewCoin(s.p.debt.denom, sdk.NewInt(cfg.reserve))))
@@ -326,6 +432,17 @@ func c10start(t *testing.T, f *c10fix, tr *Trace, cfg c10cfg) *c10seq {
 			}
 			if cfg.second {
 				c10deliver(app, ctx, liqV2types.NewMsgLiquidateInternalKeeperRequest(c10addr("keeper"), 0, vid+1))
+			}
+		} else if err := app.NewliqKeeper.Liquidate(ctx); err != nil {
+			return fail("liquidate")
+		}
+	case "lend", "lendkeeper":
+		// advance a little so that interest accrues, then drop the collateral price and liquidate the first borrow
+		c10setTwa(app, ctx, s.p.coll.id, cfg.dropTo, true)
+		if cfg.kind == "lendkeeper" {
+			ok, _ := c10deliver(app, ctx, liqV2types.NewMsgLiquidateInternalKeeperRequest(c10addr("keeper"), 1, 1))
+			if !ok {
+				return fail("keeper-liquidate-borrow")
 			}
 		} else if err := app.NewliqKeeper.Liquidate(ctx); err != nil {
 			return fail("liquidate")
@@ -375,7 +492,13 @@ func (s *c10seq) collTwa() (uint64, bool) {
 
 func (s *c10seq) bid(who string, amt sdk.Int) bool {
 	dt, _ := s.debtTwa()
+	resBefore, _ := s.f.app.NewliqKeeper.GetAppReserveFunds(s.ctx, s.f.appID, s.p.debt.id)
 	ok, cl := c10deliver(s.f.app, s.ctx, auctionsV2types.NewMsgPlaceMarketBid(c10addr(who).String(), s.aucID, sdk.Coin{Denom: s.p.debt.denom, Amount: amt}))
+	if ok {
+		if resAfter, found := s.f.app.NewliqKeeper.GetAppReserveFunds(s.ctx, s.f.appID, s.p.debt.id); found && !resAfter.TokenQuantity.Amount.Equal(resBefore.TokenQuantity.Amount) {
+			s.tr.Count("close:collateral-exhausted")
+		}
+	}
 	s.tr.Count("bid:" + cl)
 	if ok {
 		if _, open := s.auction(); !open {
@@ -421,7 +544,14 @@ func (s *c10seq) tick(dt time.Duration) {
 		return "0"
 	}
 	s.tr.Count("tick:" + cl)
-	s.tr.Line("dutch.tick", i64(s.now.Unix()), u(tc), b(ac), u(td), b(ad), lb, s.limitBids(), cl, s.state())
+	lbAfter := s.limitBids()
+	if lbAfter != lb {
+		s.tr.Count("tick:limit-fill")
+		if _, open := s.auction(); !open {
+			s.tr.Count("tick:limit-fill-closes")
+		}
+	}
+	s.tr.Line("dutch.tick", i64(s.now.Unix()), u(tc), b(ac), u(td), b(ad), lb, lbAfter, cl, s.state())
 }
 
 func (s *c10seq) setColl(price uint64, active bool) {
@@ -909,6 +1039,31 @@ func TestC10(t *testing.T) {
 	s.tick(9 * time.Second)
 	s.tick(1 * time.Second)
 	s.tick(1 * time.Second)
+
+	// ---- lend-initiated positions (fixture of the repository's own auctionsV2 tests)
+	fl := c10newLendFix(t)
+	lcfg := c10cfg{pair: 0, kind: "lend", amountIn: sdk.NewInt(100000000), amountOut: sdk.NewInt(70000000), dropTo: 1800000, T: 3600,
+		premium: "1.2", discount: "0.7", incentive: "0.1", minUsd: 100000, bonusRate: "0", penaltyExt: "0.1"}
+	s = c10start(t, fl, tr, lcfg)
+	s.bid("b1", sdk.NewInt(53000000))
+	s.tick(20 * time.Minute)
+	s.bid("b2", sdk.NewInt(100000000))
+	nl := scale(60, 1000)
+	for i := 0; i < nl; i++ {
+		cfg := c10genCfg(f, rng)
+		cfg.pair = 0
+		cfg.kind = []string{"lend", "lendkeeper"}[rng.Intn(2)]
+		cfg.amountIn, cfg.amountOut = sdk.NewInt(100000000), sdk.NewInt(70000000)
+		cfg.dropTo = []uint64{1860000, 1800000, 1700000, 1500000, 1200000, 900000, 400000}[rng.Intn(7)]
+		if cfg.reserve > 1000 {
+			cfg.reserve = 200000000
+		}
+		s := c10start(t, fl, tr, cfg)
+		if s == nil {
+			continue
+		}
+		s.randomOps(rng, cfg)
+	}
 
 	// ---- generated sequences
 	n := scale(250, 4000)
